@@ -15,7 +15,7 @@
    one) placed on a line; a line break removes trailing spaces of the line it ends. Characters are code points
    (32 = space, 10 = line break).
 
-   Mode "enum":  every document with at most MaxNodes nodes x every width in 1..MaxWidth is one state; the
+   Mode "enum":  every document with at most MaxNodes nodes x every width in 1..MaxWidth is one (row) state; the
    state emits <<doc, width, expected layout>> for the replay into the real renderer, and the laws below are
    checked in-model for each of them (invariant Laws).
    Mode "adjudicate": rows <<doc, width, actual output of the implementation>> that differ from the expected
@@ -58,7 +58,8 @@ Fits(rem, st) ==
 
 (* st: pending <<indent, mode, doc>> items, top first; out: characters so far; col: column; fresh: at line start.
    forced = <<-1>>: groups decide by Fits (the renderer). Otherwise forced is a sequence of FLAT/BREAK choices
-   consumed by the groups met in break mode, in rendering order (the set of all layouts of a document).        *)
+   consumed by the groups in rendering order (the set of all layouts of a document); the result <<-1>> means
+   that the choices are not a layout (a hard line inside a flat group).                                         *)
 RECURSIVE Run(_, _, _, _, _, _)
 Run(st, out, col, fresh, w, forced) ==
   IF st = <<>> THEN out
@@ -74,14 +75,13 @@ Run(st, out, col, fresh, w, forced) ==
            THEN LET start == IF fresh THEN ind ELSE col
                     flat == Fits(w - start, <<<<ind, FLAT, Kid(d)>>>> \o rest)
                 IN Run(<<<<ind, IF flat THEN FLAT ELSE BREAK, Kid(d)>>>> \o rest, out, col, fresh, w, forced)
-           ELSE IF m = FLAT THEN Run(<<<<ind, FLAT, Kid(d)>>>> \o rest, out, col, fresh, w, forced)
-                ELSE Run(<<<<ind, Head(forced), Kid(d)>>>> \o rest, out, col, fresh, w, Tail(forced))
+           ELSE Run(<<<<ind, Head(forced), Kid(d)>>>> \o rest, out, col, fresh, w, Tail(forced))
       [] Kind(d) = TEXT      -> Txt(Texts[Arg(d)])
       [] Kind(d) = SOFTLINE  -> IF m = FLAT THEN Txt(<<SP>>) ELSE Line
       [] Kind(d) = SOFTBREAK -> IF m = FLAT THEN Run(rest, out, col, fresh, w, forced) ELSE Line
       [] Kind(d) = IFBREAK   -> IF m = FLAT THEN Run(rest, out, col, fresh, w, forced)
                                 ELSE Run(<<<<ind, m, Kid(d)>>>> \o rest, out, col, fresh, w, forced)
-      [] Kind(d) = HARDLINE  -> Line
+      [] Kind(d) = HARDLINE  -> IF forced # <<-1>> /\ m = FLAT THEN <<-1>> ELSE Line     \* no layout: hard line in a flat group
 
 Layout(d, w) == Run(<<<<0, BREAK, d>>>>, <<>>, 0, TRUE, w, <<-1>>)
 
@@ -91,65 +91,50 @@ NGroups(d) == (IF Kind(d) = GROUP THEN 1 ELSE 0) +
               (IF Kids(d) = <<>> THEN 0 ELSE LET S[i \in 0..Len(Kids(d))] == IF i = 0 THEN 0 ELSE S[i-1] + NGroups(Kids(d)[i])
                                              IN S[Len(Kids(d))])
 Choices(n) == [1..n -> {FLAT, BREAK}]
-(* a forced FLAT choice for a group that contains a HARDLINE is not a layout (Wadler: flatten is undefined there) *)
+(* Every group chooses independently: render.rs can break a group inside a flat one (a group that starts a line
+   is measured from its own indentation, the text is placed at the indentation of the text), so the layouts of
+   the implementation are not Wadler's "flat means flat all the way down". For C17 only the content matters.   *)
 RECURSIVE HasHard(_)
 HasHard(d) == Kind(d) = HARDLINE \/ (Kind(d) # IFBREAK /\ \E i \in 1..Len(Kids(d)) : HasHard(Kids(d)[i]))   \* IFBREAK vanishes when flat
-RECURSIVE ForcedOk(_, _)
-ForcedOk(st, forced) ==       \* replays the group choices and rejects FLAT over a hard line
-  IF st = <<>> THEN TRUE
-  ELSE LET m == st[1][1]  d == st[1][2]  rest == Tail(st) IN
-    CASE Kind(d) = CONCAT -> ForcedOk([i \in 1..Len(Kids(d)) |-> <<m, Kids(d)[i]>>] \o rest, forced)
-      [] Kind(d) = NEST   -> ForcedOk(<<<<m, Kid(d)>>>> \o rest, forced)
-      [] Kind(d) = IFBREAK -> IF m = FLAT THEN ForcedOk(rest, forced) ELSE ForcedOk(<<<<m, Kid(d)>>>> \o rest, forced)
-      [] Kind(d) = GROUP  -> IF m = FLAT THEN ForcedOk(<<<<FLAT, Kid(d)>>>> \o rest, forced)
-                             ELSE IF forced = <<>> THEN TRUE
-                             ELSE /\ (Head(forced) = FLAT => ~HasHard(Kid(d)))
-                                  /\ ForcedOk(<<<<Head(forced), Kid(d)>>>> \o rest, Tail(forced))
-      [] OTHER -> ForcedOk(rest, forced)
-Layouts(d) == LET n == NGroups(d) IN
-              { Run(<<<<0, BREAK, d>>>>, <<>>, 0, TRUE, 0, c) :
-                    c \in {c \in Choices(n) : ForcedOk(<<<<BREAK, d>>>>, c)} }
+Layouts(d) == { Run(<<<<0, BREAK, d>>>>, <<>>, 0, TRUE, 0, c) : c \in Choices(NGroups(d)) } \ {<<-1>>}
 
 (* ---------------------------------------------------------------- enumeration of small documents *)
+(* Documents are built by TLC itself, bottom-up (shift/reduce): the state is a forest of finished documents;
+   a leaf is pushed, the last document is wrapped, or the last k documents are concatenated. Every document with
+   at most MaxNodes nodes is reached (post-order construction); forests that can no longer be completed within
+   the bound are pruned. A forest of one document fans out into one row state per width.                        *)
 Leaves == {<<TEXT, t, <<>>>> : t \in 1..NTexts} \cup {<<SOFTLINE, 0, <<>>>>, <<SOFTBREAK, 0, <<>>>>, <<HARDLINE, 0, <<>>>>}
-(* built bottom-up (t[m] = the documents with exactly m nodes) so that nothing is enumerated twice *)
-RECURSIVE SeqsOf(_, _, _)
-(* all sequences of at least k documents with exactly n nodes in total, documents taken from the table t *)
-SeqsOf(t, n, k) == IF n = 0 THEN (IF k <= 0 THEN {<<>>} ELSE {})
-                   ELSE UNION { LET rest == SeqsOf(t, n - f, IF k > 0 THEN k - 1 ELSE 0)
-                                IN { <<d>> \o s : d \in t[f], s \in rest } : f \in 1..n }
-DocsWith(t, n) == IF n = 1 THEN Leaves
-                  ELSE UNION { { <<IFBREAK, 0, <<d>>>> : d \in t[n - 1] }, { <<GROUP, 0, <<d>>>> : d \in t[n - 1] },
-                               { <<NEST, NestBy, <<d>>>> : d \in t[n - 1] }, { <<CONCAT, 0, s>> : s \in SeqsOf(t, n - 1, 2) } }
-(* one constant per level (a constant is evaluated once; arguments of recursive operators are not cached by TLC) *)
-Level(t, n) == IF n > MaxNodes THEN t ELSE Append(t, DocsWith(t, n))
-T1 == Level(<<>>, 1)
-T2 == Level(T1, 2)
-T3 == Level(T2, 3)
-T4 == Level(T3, 4)
-T5 == Level(T4, 5)
-T6 == Level(T5, 6)
-T7 == Level(T6, 7)
-ASSUME MaxNodes \in 1..7
-DocTable == T7
-AllDocs == UNION { DocTable[n] : n \in 1..MaxNodes }
+RECURSIVE Nodes(_)
+Nodes(d) == 1 + (IF Kids(d) = <<>> THEN 0 ELSE LET S[i \in 0..Len(Kids(d))] == IF i = 0 THEN 0 ELSE S[i-1] + Nodes(Kids(d)[i]) IN S[Len(Kids(d))])
+ForestNodes(f) == LET S[i \in 0..Len(f)] == IF i = 0 THEN 0 ELSE S[i-1] + Nodes(f[i]) IN S[Len(f)]
+Completable(f) == ForestNodes(f) + (IF Len(f) > 1 THEN 1 ELSE 0) <= MaxNodes
 
 (* ---------------------------------------------------------------- state space *)
-(* root -> one bucket per (width, kind of the top node) -> one row state per (document, width); the two-level
-   fan-out only spreads the rows over TLC's workers.                                                          *)
-VARIABLES phase, doc, width, actual
-vars == <<phase, doc, width, actual>>
+VARIABLES phase,    \* "build" (forest under construction), "row" (document x width), "adj" (adjudication row)
+          forest, width, actual
+vars == <<phase, forest, width, actual>>
+doc == forest[1]
 AdjRows == IF Mode = "adjudicate" THEN ndJsonDeserialize(IOEnv.ROWS) ELSE <<>>
 RECURSIVE FromJson(_)
 FromJson(j) == <<j[1], j[2], [i \in 1..Len(j[3]) |-> FromJson(j[3][i])]>>
-Init == phase = "root" /\ doc = <<>> /\ width = 0 /\ actual = <<>>
-Next == \/ /\ phase = "root" /\ Mode = "enum"
-           /\ phase' = "bucket" /\ width' \in 1..MaxWidth /\ doc' \in {<<k>> : k \in TEXT..CONCAT} /\ actual' = <<>>
-        \/ /\ phase = "bucket"
-           /\ phase' = "row" /\ width' = width /\ doc' \in {d \in AllDocs : Kind(d) = doc[1]} /\ actual' = <<>>
-        \/ /\ phase = "root" /\ Mode = "adjudicate"
-           /\ \E r \in 1..Len(AdjRows) : doc' = FromJson(AdjRows[r].d) /\ width' = AdjRows[r].w /\ actual' = AdjRows[r].o
-           /\ phase' = "adj"
+Init == phase = "build" /\ forest = <<>> /\ width = 0 /\ actual = <<>>
+Last == forest[Len(forest)]
+Front == SubSeq(forest, 1, Len(forest) - 1)
+Push == \E l \in Leaves : forest' = Append(forest, l)
+Wrap == /\ forest # <<>>
+        /\ \E k \in {IFBREAK, GROUP, NEST} : forest' = Append(Front, <<k, IF k = NEST THEN NestBy ELSE 0, <<Last>>>>)
+Concat == \E k \in 2..Len(forest) :
+             forest' = Append(SubSeq(forest, 1, Len(forest) - k), <<CONCAT, 0, SubSeq(forest, Len(forest) - k + 1, Len(forest))>>)
+Build == /\ phase = "build" /\ Mode = "enum"
+         /\ (Push \/ Wrap \/ Concat)
+         /\ Completable(forest')
+         /\ UNCHANGED <<phase, width, actual>>
+Emit == /\ phase = "build" /\ Mode = "enum" /\ Len(forest) = 1
+        /\ phase' = "row" /\ width' \in 1..MaxWidth /\ UNCHANGED <<forest, actual>>
+Adjudicate == /\ phase = "build" /\ Mode = "adjudicate" /\ forest = <<>>
+              /\ \E r \in 1..Len(AdjRows) : forest' = <<FromJson(AdjRows[r].d)>> /\ width' = AdjRows[r].w /\ actual' = AdjRows[r].o
+              /\ phase' = "adj"
+Next == Build \/ Emit \/ Adjudicate
 
 Row == phase = "row"
 RECURSIVE FlatWidth(_)
